@@ -8,6 +8,7 @@ correspondence: generated (hint, object, draw, conf) through beartype's five ent
 import json
 
 from harness import corecorr as C
+from harness import coreir as IR
 from harness.common import CoqFailure
 from harness.translate.run import regenerate_core
 
@@ -141,8 +142,39 @@ def oracle(case, res):
     return out[:1]
 
 
+def gen_reduction_cases(rng, n, depth, entries=C.ALL_ENTRIES):
+    """hints beartype reduces before generating code (constrained and bound TypeVars, NewTypes), alone and inside unions narrower
+    than the union they reduce to, below containers; objects conforming to what they mean, one per constraint"""
+    scal = ['int', 'str', 'bytes', 'float', 'bool', 'UserA', 'UserC', 'complex']
+    cases = []
+    while len(cases) < n:
+        k = rng.sample(scal, rng.choice([2, 3, 3, 4]))
+        members = [['cls', c] for c in k]
+        red = rng.choice([['tvar_constr', members], ['tvar_constr', members], ['tvar_bound', ['union', members]],
+                          ['tvar_bound', ['cls', k[0]]], ['newtype', ['cls', k[0]]]])
+        other = rng.choice([['cls', 'NoneType'], ['cont', 'List', ['cls', 'str']], ['cls', 'UserB']])
+        root = rng.choice([red, ['optional', red], ['union', [red, other]], ['union', [other, red]]])
+        wrap = rng.choice([lambda x: x, lambda x: x, lambda x: ['cont', 'List', x], lambda x: ['map', 'Dict', ['cls', 'str'], x],
+                           lambda x: ['tuplefixed', [['cls', 'int'], x]], lambda x: ['cont', 'Tuple', x]])
+        h = wrap(root)
+        targets = members if red[0] == 'tvar_constr' or (red[0] == 'tvar_bound' and red[1][0] == 'union') else [red[1]]
+        for m in targets + [other]:
+            try:
+                v = IR.gen_sat(rng, wrap(m), sizes=(1, 2))
+            except Exception:  # noqa
+                continue
+            if IR.valid_value(v):
+                cases.append({'hint': h, 'value': v, 'draws': sorted({0, 1, rng.getrandbits(32)}), 'is_random': rng.random() < 0.8,
+                              'entries': list(entries)})
+        bad = IR.mutate(rng, IR.gen_sat(rng, wrap(members[0]), sizes=(1, 2)))
+        if IR.valid_value(bad):
+            cases.append({'hint': h, 'value': bad, 'draws': [0, 1], 'is_random': True, 'entries': list(entries)})
+    return cases[:n]
+
+
 def run(ctx):
-    ctx.rule = RULE
+    ctx.rule = RULE + ('; reduction stream: constrained / bound TypeVars and NewTypes alone, in unions narrower than what they reduce '
+                       'to, below containers, one conforming object per constraint')
     ctx.assumptions += [
         'the model covers the grammar G of DESIGN.md section 4 (hint_ok) and well-formed objects (wf); '
         'user-defined __eq__/__bool__/__instancecheck__ are not modelled',
@@ -156,6 +188,8 @@ def run(ctx):
         failures = structural_phase(ctx, {'quick': 300, 'thorough': 6000}[ctx.tier])
         if failures <= 12:
             failures += run_stream(ctx, n, 4, oracle)
+        if failures <= 12:
+            failures += run_stream(ctx, max(80, n // 4), 2, oracle, gen=gen_reduction_cases, corpus=False)
     except CoqFailure as e:
         if proof_err is None:
             ctx.broken('corr/core model evaluation', e.log)
